@@ -554,6 +554,43 @@ pub fn check_any_source(name: &str, src: &str, family: &str, l: &mut Local) -> C
     Ok(())
 }
 
+/// a syntax fault in a template registered from a file under an explicit name: the error names the template, not the path
+pub fn check_file_fault(si: usize, l: &mut Local) -> Check {
+    let (label, text, _) = SYNTAX_FAULTS[si];
+    let src = format!("first line\n\u{e9} {}", text.replace('⟦', "").replace('⟧', ""));
+    let dir = std::path::Path::new(VERIF_DIR).join("work").join("c12files");
+    let _ = std::fs::create_dir_all(&dir);
+    let path = dir.join(format!("fault{si}.tpl"));
+    if std::fs::read_to_string(&path).ok().as_deref() != Some(src.as_str()) {
+        let _ = std::fs::write(&path, &src);
+    }
+    let case = || json!({"kind": "file_fault", "snippet_index": si});
+    let mut t = tera::Tera::new();
+    let name = "pages/from-file.html";
+    let r = match guard(|| t.add_template_file(&path, Some(name))) {
+        Ok(r) => r,
+        Err(p) => return Err(Fail::new("C12/panic", p, case())),
+    };
+    l.eval();
+    let Err(e) = r else { return Ok(()) };
+    match observe(&e) {
+        Err(p) => Err(Fail::new("C12/display-panics", p, case())),
+        Ok(None) => Ok(()),
+        Ok(Some(o)) => {
+            if o.filename != name {
+                return Err(Fail::new("C12/wrong-template", format!("{label}: the template was registered from a file under the name {name:?} but the error names {:?}", o.filename), case()));
+            }
+            let probs = span_problems(&src, &o.span);
+            if !probs.is_empty() {
+                return Err(Fail::new("C12/span-inconsistent", format!("{label} (from a file): {:?}", probs), case()));
+            }
+            l.label("file-fault");
+            l.nontrivial(hash_of(&(si, 0xf11eu32)));
+            Ok(())
+        }
+    }
+}
+
 pub fn run(rep: &Report) {
     rep.set_rule("fault injection: a six-template scaffold (parent with a block and a trailing include, child overriding the block with super(), include chain 3 deep, component library, component calls with and without body; includes optionally wrapped in a filter section, a set block or a component-call body) whose templates start with generated multi-line prefixes (LF and CRLF lines, tabs, combining and 4-byte characters, comments, working tags) receives exactly one fault at a recorded byte range in one of eight positions (top level and block of the parent, block of the child, each include depth, component-call body, component definition body): 57 render-fault kinds and 30 syntax-fault kinds. Oracle: error kind; filename = template whose source holds the fault; span within the source on character boundaries with line/column equal to those recomputed from the byte offsets (start and end); render faults: span inside the tag/expression holding the fault and overlapping the faulty range; syntax faults: span never ends before the fault (must touch it for the classes the snapshots pin); Display does not panic, quotes the start line, and names every call site of the chain after it, innermost first; where a note carries a `name:line:col` locus it must point into that call site (wording and layout of the report are not pinned). Plus: span validity (and, for registration errors, template name and start line in the Display text) on every positioned error raised by generated C02 expressions spelled with random newlines and whitespace after a generated prefix, by token soup after a generated prefix, by mutated repository snapshot inputs, and by every prefix (every third in the quick tier) of every repository snapshot input. Non-trivial: fault not on the first line, or after a multi-byte character, or not in the entry template; distinct by (fault, position, prefixes).");
     rep.assume("render-time errors that the engine reports as plain messages (component recursion limit, render depth limit) are outside `syntax or rendering error`; columns count characters (a tab is one column)");
@@ -581,6 +618,8 @@ pub fn run(rep: &Report) {
         let cuts: Vec<(usize, usize)> = seeds.iter().enumerate().flat_map(|(fi, s)| s.char_indices().map(move |(i, _)| (fi, i)).step_by(stride)).collect();
         run_enum(rep, "truncated_input_errors", &cuts, move |(fi, cut), l| check_any_source("p.txt", &sref[*fi][..*cut], "truncate", l));
     }
+    let files: Vec<usize> = (0..SYNTAX_FAULTS.len()).collect();
+    run_enum(rep, "syntax_faults_from_files", &files, |si, l| check_file_fault(*si, l));
     // exhaustive pass without prefixes
     let plain: [String; 6] = Default::default();
     let all: Vec<(usize, usize, u8)> = (0..RENDER_FAULTS.len()).flat_map(|s| (0..HOLES.len()).flat_map(move |h| (0u8..4).map(move |w| (s, h, w)))).collect();
@@ -588,7 +627,7 @@ pub fn run(rep: &Report) {
     run_enum(rep, "render_faults_all_positions", &all, move |(s, h, w), l| check_render_fault(*s, HOLES[*h], &plain2, *w, l));
     let alls: Vec<(usize, usize)> = (0..SYNTAX_FAULTS.len()).flat_map(|s| (0..HOLES.len()).map(move |h| (s, h))).collect();
     run_enum(rep, "syntax_faults_all_positions", &alls, move |(s, h), l| check_syntax_fault(*s, HOLES[*h], &plain, l));
-    for (lab, min) in [("render-fault", 100_000), ("syntax-fault", 50_000), ("fault:not-on-first-line", 100_000), ("fault:after-multibyte", 50_000), ("fault:multi-line-span", 5_000), ("fault:with-call-chain", 50_000), ("fault:include-inside-capture", 20_000), ("random:error-with-position", 50_000), ("hole:CompBody", 10_000), ("hole:ChildBlock", 10_000), ("hole:Inc3", 10_000), ("any:soup:syntax-error", 50_000), ("any:mutate:syntax-error", 10_000), ("any:truncate:syntax-error", 5_000), ("any:span-at-end-of-input", 5_000), ("any:not-first-line-or-after-multibyte", 50_000)] {
+    for (lab, min) in [("render-fault", 100_000), ("syntax-fault", 50_000), ("fault:not-on-first-line", 100_000), ("fault:after-multibyte", 50_000), ("fault:multi-line-span", 5_000), ("fault:with-call-chain", 50_000), ("fault:include-inside-capture", 20_000), ("random:error-with-position", 50_000), ("hole:CompBody", 10_000), ("hole:ChildBlock", 10_000), ("hole:Inc3", 10_000), ("file-fault", 20), ("any:soup:syntax-error", 50_000), ("any:mutate:syntax-error", 10_000), ("any:truncate:syntax-error", 5_000), ("any:span-at-end-of-input", 5_000), ("any:not-first-line-or-after-multibyte", 50_000)] {
         rep.floor(lab, min);
     }
 }
@@ -622,6 +661,7 @@ pub fn replay(_rep: &Report, case: &serde_json::Value) -> Option<Check> {
                 },
             }
         }
+        "file_fault" => Some(check_file_fault(case.get("snippet_index")?.as_u64()? as usize % SYNTAX_FAULTS.len(), &mut l)),
         "any_source" => Some(check_any_source(case.get("name")?.as_str()?, case.get("source")?.as_str()?, "replay", &mut l)),
         "syntax_error_span" => {
             // fixed repro of F15: the span of the error must be consistent with the source
